@@ -13,6 +13,9 @@ Definition unchecked_assertions : list (bytes * bytes * bytes * aclass) := [
 ].
 Definition reflect_field_reads : list (bytes * bytes * bytes * bool) := [
   ((sb "reflect.go"), (sb "PopulateStructFields"), (sb "rv.Field(i)"), true);
+  ((sb "reflect.go"), (sb "PopulateStructFields"), (sb "rv.Field(i)"), true);
+  ((sb "reflect.go"), (sb "populatePromotedFields"), (sb "ev.Field(i)"), true);
+  ((sb "reflect.go"), (sb "populatePromotedFields"), (sb "ev.Field(i)"), true);
   ((sb "reflect.go"), (sb "resolveStruct"), (sb "rv.FieldByIndex(f.Index)"), true);
   ((sb "reflect.go"), (sb "structToMap"), (sb "rv.Field(i)"), true)
 ].
